@@ -35,7 +35,8 @@ type stats struct {
 type frame struct {
 	in        *Interp
 	fn        *ssa.Function
-	env       map[ssa.Value]Value
+	env       []Value
+	idx       map[ssa.Value]int
 	block     *ssa.BasicBlock
 	prev      *ssa.BasicBlock
 	defers    []func()
@@ -144,9 +145,6 @@ func (in *Interp) freshVar(label string, w int) *Term {
 // ---------------------------------------------------------------- values
 
 func (in *Interp) constValue(c *ssa.Const) Value {
-	if v, ok := in.constCache[c]; ok {
-		return v
-	}
 	if c.Value != nil && c.Value.Kind() == constant.String && isString(c.Type()) {
 		sv := constant.StringVal(c.Value)
 		if v, ok := in.strCache[sv]; ok {
@@ -156,12 +154,7 @@ func (in *Interp) constValue(c *ssa.Const) Value {
 		in.strCache[sv] = v
 		return v
 	}
-	v := in.constValue1(c)
-	switch v.(type) {
-	case *Term, StrV:
-		in.constCache[c] = v
-	}
-	return v
+	return in.constValue1(c)
 }
 
 func (in *Interp) constValue1(c *ssa.Const) Value {
@@ -207,11 +200,36 @@ func (fr *frame) get(v ssa.Value) Value {
 	case *ssa.Builtin:
 		return v
 	}
-	r, ok := fr.env[v]
+	i, ok := fr.idx[v]
 	if !ok {
-		panic(fmt.Sprintf("get: no value for %s (%T) in %s", v.Name(), v, fr.fn))
+		panic(fmt.Sprintf("get: no slot for %s (%T) in %s", v.Name(), v, fr.fn))
 	}
-	return r
+	return fr.env[i]
+}
+
+func (fr *frame) set(v ssa.Value, x Value) { fr.env[fr.idx[v]] = x }
+
+// slotIndex numbers every value of fn (params, free vars, value-instructions).
+func (w *World) slotIndex(fn *ssa.Function) map[ssa.Value]int {
+	if m, ok := w.slots.Load(fn); ok {
+		return m.(map[ssa.Value]int)
+	}
+	m := map[ssa.Value]int{}
+	for _, p := range fn.Params {
+		m[p] = len(m)
+	}
+	for _, f := range fn.FreeVars {
+		m[f] = len(m)
+	}
+	for _, b := range fn.Blocks {
+		for _, ins := range b.Instrs {
+			if v, ok := ins.(ssa.Value); ok {
+				m[v] = len(m)
+			}
+		}
+	}
+	w.slots.Store(fn, m)
+	return m
 }
 
 func (in *Interp) global(g *ssa.Global) *Cell {
@@ -296,12 +314,13 @@ func (in *Interp) callFn(caller *frame, fn *ssa.Function, args []Value, env []Va
 		in.unsupported("uninstantiated generic " + name)
 	}
 	in.out.Funcs[name]++
-	fr := &frame{in: in, fn: fn, caller: caller, env: make(map[ssa.Value]Value, 16), visits: map[*ssa.BasicBlock]int{}}
+	idx := in.world.slotIndex(fn)
+	fr := &frame{in: in, fn: fn, caller: caller, idx: idx, env: make([]Value, len(idx))}
 	for i, p := range fn.Params {
-		fr.env[p] = args[i]
+		fr.env[idx[p]] = args[i]
 	}
 	for i, fv := range fn.FreeVars {
-		fr.env[fv] = env[i]
+		fr.env[idx[fv]] = env[i]
 	}
 	fr.block = fn.Blocks[0]
 	saved := in.cur
@@ -334,9 +353,14 @@ func (in *Interp) runFrame(fr *frame) {
 	}()
 	for {
 		blk := fr.block
-		fr.visits[blk]++
-		if fr.visits[blk] > in.cfg.MaxLoop {
-			panic(abort{kind: "unwind", msg: fmt.Sprintf("block %s of %s visited more than %d times", blk, fr.fn, in.cfg.MaxLoop)})
+		if fr.prev != nil && blk.Index <= fr.prev.Index {
+			if fr.visits == nil {
+				fr.visits = map[*ssa.BasicBlock]int{}
+			}
+			fr.visits[blk]++
+			if fr.visits[blk] > in.cfg.MaxLoop {
+				panic(abort{kind: "unwind", msg: fmt.Sprintf("block %s of %s visited more than %d times", blk, fr.fn, in.cfg.MaxLoop)})
+			}
 		}
 		// phis
 		first := 0
@@ -359,7 +383,7 @@ func (in *Interp) runFrame(fr *frame) {
 					first++
 				}
 				for i := 0; i < first; i++ {
-					fr.env[blk.Instrs[i].(*ssa.Phi)] = tmp[i]
+					fr.set(blk.Instrs[i].(*ssa.Phi), tmp[i])
 				}
 			}
 		}
@@ -451,20 +475,20 @@ func (in *Interp) visit(fr *frame, instr ssa.Instruction) cont {
 	switch ins := instr.(type) {
 	case *ssa.DebugRef:
 	case *ssa.UnOp:
-		fr.env[ins] = in.unop(fr, ins)
+		fr.env[fr.idx[ins]] = in.unop(fr, ins)
 	case *ssa.BinOp:
-		fr.env[ins] = in.binop(ins.Op, ins.X.Type(), ins.Y.Type(), fr.get(ins.X), fr.get(ins.Y))
+		fr.env[fr.idx[ins]] = in.binop(ins.Op, ins.X.Type(), ins.Y.Type(), fr.get(ins.X), fr.get(ins.Y))
 	case *ssa.Call:
-		fr.env[ins] = in.doCall(fr, &ins.Call, ins)
+		fr.env[fr.idx[ins]] = in.doCall(fr, &ins.Call, ins)
 		in.cur = fr
 	case *ssa.ChangeInterface:
-		fr.env[ins] = fr.get(ins.X)
+		fr.env[fr.idx[ins]] = fr.get(ins.X)
 	case *ssa.ChangeType:
-		fr.env[ins] = fr.get(ins.X)
+		fr.env[fr.idx[ins]] = fr.get(ins.X)
 	case *ssa.Convert:
-		fr.env[ins] = in.convert(ins.X.Type(), ins.Type(), fr.get(ins.X))
+		fr.env[fr.idx[ins]] = in.convert(ins.X.Type(), ins.Type(), fr.get(ins.X))
 	case *ssa.MultiConvert:
-		fr.env[ins] = in.convert(ins.X.Type(), ins.Type(), fr.get(ins.X))
+		fr.env[fr.idx[ins]] = in.convert(ins.X.Type(), ins.Type(), fr.get(ins.X))
 	case *ssa.SliceToArrayPointer:
 		s := fr.get(ins.X).(SliceV)
 		at := ins.Type().(*types.Pointer).Elem().Underlying().(*types.Array)
@@ -472,16 +496,16 @@ func (in *Interp) visit(fr *frame, instr ssa.Instruction) cont {
 			in.goPanicRuntime("cannot convert slice to array pointer: length too short")
 		}
 		if s.C == nil {
-			fr.env[ins] = PtrV{}
+			fr.env[fr.idx[ins]] = PtrV{}
 		} else {
-			fr.env[ins] = PtrV{C: s.C, Off: s.Off}
+			fr.env[fr.idx[ins]] = PtrV{C: s.C, Off: s.Off}
 		}
 	case *ssa.MakeInterface:
-		fr.env[ins] = IfaceV{T: ins.X.Type(), V: fr.get(ins.X)}
+		fr.env[fr.idx[ins]] = IfaceV{T: ins.X.Type(), V: fr.get(ins.X)}
 	case *ssa.Extract:
-		fr.env[ins] = fr.get(ins.Tuple).(TupleV)[ins.Index]
+		fr.env[fr.idx[ins]] = fr.get(ins.Tuple).(TupleV)[ins.Index]
 	case *ssa.Slice:
-		fr.env[ins] = in.sliceOp(fr, ins)
+		fr.env[fr.idx[ins]] = in.sliceOp(fr, ins)
 	case *ssa.Return:
 		switch len(ins.Results) {
 		case 0:
@@ -525,10 +549,10 @@ func (in *Interp) visit(fr *frame, instr ssa.Instruction) cont {
 	case *ssa.MakeChan:
 		n := in.mustConst(fr.get(ins.Size).(*Term), "chan size")
 		in.nextID++
-		fr.env[ins] = &ChanV{id: in.nextID, cap: int(n), et: ins.Type().Underlying().(*types.Chan).Elem()}
+		fr.env[fr.idx[ins]] = &ChanV{id: in.nextID, cap: int(n), et: ins.Type().Underlying().(*types.Chan).Elem()}
 	case *ssa.Alloc:
 		t := ins.Type().(*types.Pointer).Elem()
-		fr.env[ins] = PtrV{C: in.newCell(t)}
+		fr.env[fr.idx[ins]] = PtrV{C: in.newCell(t)}
 	case *ssa.MakeSlice:
 		et := ins.Type().Underlying().(*types.Slice).Elem()
 		n := in.allocSize(fr.get(ins.Len).(*Term), sizeof(et), "make([]T, len)")
@@ -539,15 +563,15 @@ func (in *Interp) visit(fr *frame, instr ssa.Instruction) cont {
 		if n < 0 || c < n {
 			in.goPanicRuntime("makeslice: len out of range")
 		}
-		fr.env[ins] = SliceV{C: in.newArrayCell(et, int(c)), Len: int(n), Cap: int(c)}
+		fr.env[fr.idx[ins]] = SliceV{C: in.newArrayCell(et, int(c)), Len: int(n), Cap: int(c)}
 	case *ssa.MakeMap:
 		mt := ins.Type().Underlying().(*types.Map)
 		in.nextID++
-		fr.env[ins] = &MapV{id: in.nextID, kt: mt.Key(), vt: mt.Elem()}
+		fr.env[fr.idx[ins]] = &MapV{id: in.nextID, kt: mt.Key(), vt: mt.Elem()}
 	case *ssa.Range:
-		fr.env[ins] = in.rangeIter(fr.get(ins.X), ins.X.Type())
+		fr.env[fr.idx[ins]] = in.rangeIter(fr.get(ins.X), ins.X.Type())
 	case *ssa.Next:
-		fr.env[ins] = fr.get(ins.Iter).(*iter).next(in)
+		fr.env[fr.idx[ins]] = fr.get(ins.Iter).(*iter).next(in)
 	case *ssa.FieldAddr:
 		p := fr.get(ins.X).(PtrV)
 		if p.C == nil {
@@ -555,20 +579,20 @@ func (in *Interp) visit(fr *frame, instr ssa.Instruction) cont {
 		}
 		if p.C.kind == cFlat {
 			su := ins.X.Type().Underlying().(*types.Pointer).Elem().Underlying().(*types.Struct)
-			fr.env[ins] = PtrV{C: p.C, Off: p.Off + fieldOffsets(su)[ins.Field], Sym: p.Sym}
+			fr.env[fr.idx[ins]] = PtrV{C: p.C, Off: p.Off + fieldOffsets(su)[ins.Field], Sym: p.Sym}
 		} else if p.C.kind == cKids {
-			fr.env[ins] = PtrV{C: p.C.Kids[ins.Field]}
+			fr.env[fr.idx[ins]] = PtrV{C: p.C.Kids[ins.Field]}
 		} else {
 			panic(fmt.Sprintf("FieldAddr on scalar cell of type %v", p.C.T))
 		}
 	case *ssa.Field:
-		fr.env[ins] = fr.get(ins.X).(StructV)[ins.Field]
+		fr.env[fr.idx[ins]] = fr.get(ins.X).(StructV)[ins.Field]
 	case *ssa.IndexAddr:
-		fr.env[ins] = in.indexAddr(fr, ins)
+		fr.env[fr.idx[ins]] = in.indexAddr(fr, ins)
 	case *ssa.Index:
-		fr.env[ins] = in.indexOp(fr, ins)
+		fr.env[fr.idx[ins]] = in.indexOp(fr, ins)
 	case *ssa.Lookup:
-		fr.env[ins] = in.lookup(fr, ins)
+		fr.env[fr.idx[ins]] = in.lookup(fr, ins)
 	case *ssa.MapUpdate:
 		m := fr.get(ins.Map).(*MapV)
 		if m == nil {
@@ -576,17 +600,17 @@ func (in *Interp) visit(fr *frame, instr ssa.Instruction) cont {
 		}
 		in.mapSet(m, fr.get(ins.Key), fr.get(ins.Value))
 	case *ssa.TypeAssert:
-		fr.env[ins] = in.typeAssert(fr, ins)
+		fr.env[fr.idx[ins]] = in.typeAssert(fr, ins)
 	case *ssa.MakeClosure:
 		var env []Value
 		for _, b := range ins.Bindings {
 			env = append(env, fr.get(b))
 		}
-		fr.env[ins] = &FuncV{Fn: ins.Fn.(*ssa.Function), Env: env}
+		fr.env[fr.idx[ins]] = &FuncV{Fn: ins.Fn.(*ssa.Function), Env: env}
 	case *ssa.Phi:
 		panic("unexpected phi")
 	case *ssa.Select:
-		fr.env[ins] = in.selectOp(fr, ins)
+		fr.env[fr.idx[ins]] = in.selectOp(fr, ins)
 	default:
 		in.unsupported(fmt.Sprintf("instruction %T", instr))
 	}
